@@ -82,7 +82,7 @@ class Pi(schemes.interface.inverted_index_sse.InvertedIndexSSE):
         """Encrypted the given database under the key"""
         k1, k2, k3 = K.k1, K.k2, K.k3
         N = get_total_size(database)
-        l = math.ceil(math.log2(N))
+        l = max(math.ceil(math.log2(N)), 1)  # at least one level, also for a database with a single posting
         s = math.ceil(l * self.config.param_actual_storage_level_ratio)
         p = math.ceil(l / s)
         levels = [l - i * p for i in range(0, s)]
